@@ -7,7 +7,9 @@
      /repo/serializer/serix/numbers.go     (EncodeHex, DecodeHex, EncodeUint256, DecodeUint256)
      /repo/serializer/serializer.go        (TimeToUint64)
      serix.go JSONEncode/JSONDecode/MapEncode/MapDecode (the *_top wrappers)
-   after the fix: commits 4262ca0 (D02b), 81cafca (arrays of non-byte elements), 8fc6fcd (GetByValue).
+   after the fix: commits 4262ca0 (D02b), 81cafca (arrays of non-byte elements), 8fc6fcd (GetByValue),
+   a85045b (map entries written in the order of their encoded keys: a [VMap] lists the entries of the Go map in
+   that order - the harness prints them so -, and [jencode] emits them in list order).
    The parameter [fx : bool] selects the code as it is now ([true]) or as it was pinned ([false]: the
    unchecked type assertions / reflect calls of map_decode.go produce [Panic]).
 
